@@ -29,13 +29,13 @@ theorem C01_fill_with_src (s : Sys) (h : Inv s.buf) (hd : s.faults.drop = 0)
         dropEvents s.kind (abs s.buf)) s.buf.cap := by
   have h0 := C01_fill_with s h hd hc hk
   unfold Runs at h0 ⊢
-  have hI : ∀ s1, clear s = (.ok (), s1) → Inv s1.buf := by
+  have hI : ∀ s1, clear s = (.ok (), s1) → Inv s1.buf ∧ s1.buf.cap = s.buf.cap := by
     intro s1 e1
-    obtain ⟨b', e2, hI', _⟩ := clear_spec s h hd
+    obtain ⟨b', e2, hI', _, hcap⟩ := clear_spec s h hd
     rw [e2] at e1
     have : s1 = _ := ((Prod.mk.inj e1).2).symm
     subst this
-    exact hI'
+    exact ⟨hI', hcap⟩
   rw [tie_fill_with s h (nd_clear_nofault s h hd) hI]; exact h0
 
 maybe /-- **a panic in the closure** (its `k+1`-st call, for every `k` below the free space): the translated
